@@ -406,6 +406,24 @@ func c08Headers(p *Prog, r *Report) {
 						}
 					}
 				}
+				// the plain-HTTP default describes the connection: "80" only when the connection is not TLS
+				tlsTests := NilTests(pf, func(v ssa.Value) bool {
+					base, ok := loadPath(v, "TLS")
+					return ok && len(pf.Params) > 0 && base == ssa.Value(pf.Params[0])
+				})
+				for _, ret := range Returns(pf) {
+					if sv, ok := constString(ReturnOperand(ret, 0)); ok && sv == "80" {
+						okTLS := false
+						for _, t := range tlsTests {
+							if OnlyViaEdge(pf, ret, t.Nil) {
+								okTLS = true
+							}
+						}
+						r.Paths++
+						r.Check(okTLS, "C08.R4", rn+": default port 80 only for a non-TLS connection", p.InstrPos(ret), "this return is reachable only on the req.TLS == nil edge",
+							"port 80 can be reported for a TLS connection (an upstream X-Forwarded-Proto: http without a port decides instead of the connection): X-Forwarded-Port no longer describes the incoming connection")
+					}
+				}
 				for _, ret := range Returns(pf) {
 					if sv, ok := constString(ReturnOperand(ret, 0)); ok && sv != "" {
 						r.Paths++
